@@ -203,6 +203,40 @@ func genC12(g *Rng, tier string, emit func(Op)) {
 			}
 			emit(Op{"op": "recorded", "class": "false-statement-prover", "label": "refused", "nomodel": true, "result": res})
 		}
+		// false statements at the edges of the factor's range (the exponent arithmetic is 64 bit)
+		for _, f := range []uint{1 << 63, 1<<63 - 1, 1<<63 + 1, 1 << 62, ^uint(0)} {
+			for _, sign := range []int{1, -1} {
+				// sign*(f*m - bound) >= 0 is false for bound = f*m + sign (one beyond the attribute)
+				fm := new(big.Int).Mul(new(big.Int).SetUint64(uint64(f)), m1)
+				for _, bound := range []*big.Int{new(big.Int).Add(fm, bi(int64(sign))), bi(0)} {
+					d := new(big.Int).Sub(fm, bound)
+					if sign == -1 {
+						d.Neg(d)
+					}
+					if d.Sign() >= 0 {
+						continue // true statement
+					}
+					st := &rangeproof.Statement{Sign: sign, Factor: f, Bound: bound}
+					res := "refused"
+					func() {
+						defer func() {
+							if recover() != nil {
+								res = "refused" // a panic in the prover is not a proof
+							}
+						}()
+						p, err := cred.CreateDisclosureProof([]int{3}, map[int][]*rangeproof.Statement{1: {st}}, false, ctx, nonce)
+						if err == nil {
+							res = "built-rejected"
+							if p.Verify(pk, ctx, nonce, false) {
+								res = "built-accepted"
+							}
+						}
+					}()
+					emit(Op{"op": "recorded", "class": "false-statement-prover-extreme-factor", "label": "refused|built-rejected", "nomodel": true, "result": res,
+						"sign": sign, "factor": fmt.Sprint(f), "bound": hx(bound), "m": hx(m1)})
+				}
+			}
+		}
 		// every single-field alteration of the range proofs
 		for _, lp := range leafPaths(tree) {
 			if len(lp) == 0 || lp[0] != "rangeproofs" {
@@ -479,6 +513,19 @@ func genC13(g *Rng, tier string, emit func(Op)) {
 						emit(o)
 					}
 				}
+			}
+		}
+		// differences at the upper end of what four squares of l_d bits can express (just below
+		// 2^Lm): the roots then use all their bits
+		{
+			lm := kp.pk.Params.Lm
+			top := new(big.Int).Sub(new(big.Int).Lsh(bi(1), lm), bi(1))
+			for _, d := range []*big.Int{top, new(big.Int).Sub(top, bi(1)), new(big.Int).Add(new(big.Int).Lsh(bi(1), lm-1), bi(12345)),
+				new(big.Int).Sub(new(big.Int).Lsh(bi(1), lm-2), bi(1)), new(big.Int).Sub(top, g.bits(int(lm)-3)), new(big.Int).Sub(top, g.bits(int(lm)-8))} {
+				// m >= m - d  (m at the top of the range)  and  small <= small + d
+				emit(mk(1, 1, new(big.Int).Sub(top, d), top, 0, "difference-at-limit"))
+				small := g.bits(40)
+				emit(mk(-1, 1, new(big.Int).Add(small, d), small, 0, "difference-at-limit"))
 			}
 		}
 		m := g.bits(60)
